@@ -8,6 +8,7 @@ import (
 	"strconv"
 	"strings"
 
+	"github.com/icon-project/goloop/common/codec"
 	"github.com/icon-project/goloop/common/crypto"
 	"github.com/icon-project/goloop/common/db"
 	"github.com/icon-project/goloop/common/wallet"
@@ -40,6 +41,10 @@ func c05Gen(g *Gen) {
 		n := g.Pick(1, 2, 3, 4, 5, 6, 7, 8, 9, 10, 1+g.Intn(10))
 		if g.Intn(30) == 0 {
 			n = 0
+		}
+		if g.Intn(4) == 0 {
+			c05GenPB(g, n)
+			continue
 		}
 		mode := "std"
 		switch g.Intn(30) {
@@ -113,6 +118,114 @@ func c05Gen(g *Gen) {
 	}
 }
 
+// pb <n> <round> <pseq> <pre> <items>: the fast-sync path (consensus.processBlock)
+//
+//	pre   = '-' or k:d:ts,...  precommits already in the height vote set (d: 1 target, 2 other block, 0 nil)
+//	items = '-' or v<k>:<ts> | w<k>:<ts> | f<j>:<ts>, ...
+func c05GenPB(g *Gen, n int) {
+	q := n * 2 / 3
+	var items, pre []string
+	distinct := func(m int) []int {
+		if m > n {
+			m = n
+		}
+		if m < 0 {
+			m = 0
+		}
+		return g.R.Perm(n)[:m]
+	}
+	ts := func() int { return 100 + g.Intn(4) }
+	switch g.Intn(8) {
+	case 0: // one signer repeated with different timestamps (2..n copies), maybe a few others
+		if n > 0 {
+			k := g.Intn(n)
+			c := 2 + g.Intn(n)
+			if g.Intn(2) == 0 {
+				c = g.Pick(q, q+1, q+2, n)
+			}
+			for j := 0; j < c; j++ {
+				items = append(items, fmt.Sprintf("v%d:%d", k, 100+j))
+			}
+			for _, o := range distinct(g.Intn(q + 1)) {
+				if o != k && g.Intn(2) == 0 {
+					items = append(items, fmt.Sprintf("v%d:%d", o, ts()))
+				}
+			}
+		}
+	case 1: // one signer repeated with identical items
+		if n > 0 {
+			k := g.Intn(n)
+			t := ts()
+			for j := 0; j < g.Pick(2, q+1, q+2, n); j++ {
+				items = append(items, fmt.Sprintf("v%d:%d", k, t))
+			}
+			for _, o := range distinct(g.Intn(q + 1)) {
+				if o != k {
+					items = append(items, fmt.Sprintf("v%d:%d", o, ts()))
+				}
+			}
+		}
+	case 2: // mixed: too few distinct signers, padded beyond the threshold with repeats (same / other ts)
+		m := g.Pick(1, q-1, q)
+		if m < 1 {
+			m = 1
+		}
+		ds := distinct(m)
+		for _, k := range ds {
+			items = append(items, fmt.Sprintf("v%d:%d", k, 100))
+		}
+		for len(ds) > 0 && len(items) <= q+1+g.Intn(2) {
+			k := ds[g.Intn(len(ds))]
+			items = append(items, fmt.Sprintf("v%d:%d", k, 100+g.Intn(2)*(1+len(items))))
+		}
+	case 3, 4: // distinct signers around the threshold
+		for _, k := range distinct(g.Pick(q, q+1, q+1, q+2, n)) {
+			items = append(items, fmt.Sprintf("v%d:%d", k, ts()))
+		}
+	case 5: // quorum of distinct signers plus repeats
+		ds := distinct(g.Pick(q+1, q+1, n))
+		for _, k := range ds {
+			items = append(items, fmt.Sprintf("v%d:%d", k, 100))
+		}
+		for j := g.Intn(3); j > 0 && len(ds) > 0; j-- {
+			items = append(items, fmt.Sprintf("v%d:%d", ds[g.Intn(len(ds))], 100+g.Intn(3)))
+		}
+	case 6: // votes already in the height vote set, list around the threshold
+		for _, k := range distinct(g.Intn(n + 1)) {
+			pre = append(pre, fmt.Sprintf("%d:%d:%d", k, g.Pick(1, 1, 2, 2, 0), ts()))
+		}
+		for _, k := range distinct(g.Pick(q-1, q, q+1, n)) {
+			items = append(items, fmt.Sprintf("v%d:%d", k, ts()))
+		}
+		if n > 0 && g.Intn(2) == 0 {
+			k := g.Intn(n)
+			items = append(items, fmt.Sprintf("v%d:%d", k, 104), fmt.Sprintf("v%d:%d", k, 105))
+		}
+	case 7: // a bad item among good ones
+		for _, k := range distinct(g.Pick(q+1, n)) {
+			items = append(items, fmt.Sprintf("v%d:%d", k, ts()))
+		}
+		bad := []string{fmt.Sprintf("w%d:%d", g.Intn(n+1), ts()), fmt.Sprintf("f%d:%d", 1+g.Intn(999), ts()), fmt.Sprintf("v%d:%d", n+g.Intn(2), ts())}[g.Intn(3)]
+		if len(items) > 0 && g.Intn(2) == 0 {
+			items[g.Intn(len(items))] = bad
+		} else {
+			items = append(items, bad)
+		}
+	}
+	g.R.Shuffle(len(items), func(a, b int) { items[a], items[b] = items[b], items[a] })
+	pseq := 1
+	if g.Intn(10) == 0 {
+		pseq = 0
+	}
+	j := func(xs []string) string {
+		if len(xs) == 0 {
+			return "-"
+		}
+		return strings.Join(xs, ",")
+	}
+	g.Emit("pb %d %d %d %s %s", n, g.Pick(0, 0, 1, 3), pseq, j(pre), j(items))
+}
+
 // ---------------------------------------------------------------- material
 
 var c05Wallets []module.Wallet
@@ -162,6 +275,157 @@ func (b *c05Block) ID() []byte    { return b.id }
 
 type c05Runner struct{ seq int }
 
+func (b *c05Block) NTSHashEntryList() (module.NTSHashEntryList, error) {
+	return module.ZeroNTSHashEntryList{}, nil
+}
+
+// the last finalized block as processBlock sees it: Result() and NextValidators() only
+type c05PrevBlock struct {
+	module.Block
+	validators module.ValidatorList
+}
+
+func (b *c05PrevBlock) Result() []byte                       { return nil }
+func (b *c05PrevBlock) NextValidators() module.ValidatorList { return b.validators }
+
+func c05Split(s string) []string {
+	if s == "-" {
+		return nil
+	}
+	return strings.Split(s, ",")
+}
+
+func c05ProcessBlock(bs []byte, blk module.BlockData, prev module.Block, validators module.ValidatorList,
+	psid *consensus.PartSetID, preIdx []int, pre []*consensus.VoteMessage) (res string, panicked interface{}) {
+	defer func() {
+		if e := recover(); e != nil {
+			panicked = e
+		}
+	}()
+	res = consensus.VerifC05ProcessBlockAccepts(bs, blk, prev, validators, c05DB, psid, preIdx, pre)
+	return
+}
+
+func (r *c05Runner) stepPB(t []string, o *Oracle) string {
+	n, e1 := strconv.Atoi(t[1])
+	round, e2 := strconv.Atoi(t[2])
+	pseq, e3 := strconv.Atoi(t[3])
+	if e1 != nil || e2 != nil || e3 != nil || n < 0 || n > 64 || round < 0 || pseq < 0 || pseq > 1 {
+		return "bad-op"
+	}
+	r.seq++
+	height := int64(12)
+	bid := c05Hash("block", r.seq%7)
+	psid := &consensus.PartSetID{Count: uint16(1 + r.seq%3), Hash: c05Hash("ps", r.seq%5)}
+	otherBid := c05Hash("other-block", r.seq%7)
+	otherPsid := &consensus.PartSetID{Count: psid.Count, Hash: c05Hash("other-ps", r.seq%5)}
+	nid := uint32(r.seq % 3)
+	validators := c05Validators(n)
+	blk := &c05Block{height: height, id: bid}
+	prev := &c05PrevBlock{validators: validators}
+	support := map[int]bool{} // validators with a precommit for the target (already there, or in the list)
+
+	var preIdx []int
+	var pre []*consensus.VoteMessage
+	for _, p := range c05Split(t[4]) {
+		f := strings.Split(p, ":")
+		if len(f) != 3 {
+			return "bad-op"
+		}
+		k, e1 := strconv.Atoi(f[0])
+		d, e2 := strconv.Atoi(f[1])
+		ts, e3 := strconv.Atoi(f[2])
+		if e1 != nil || e2 != nil || e3 != nil || k < 0 || k >= n || d < 0 || d > 2 {
+			return "bad-op"
+		}
+		var vm *consensus.VoteMessage
+		switch d {
+		case 0:
+			vm = consensus.VerifSignedVote(c05Wallet(k), consensus.VoteTypePrecommit, height, int32(round), codec.MustMarshalToBytes(int32(nid)), nil, 0, 0, int64(ts))
+		case 1:
+			vm = consensus.VerifSignedVote(c05Wallet(k), consensus.VoteTypePrecommit, height, int32(round), bid, psid, nid, 0, int64(ts))
+			support[k] = true
+		case 2:
+			vm = consensus.VerifSignedVote(c05Wallet(k), consensus.VoteTypePrecommit, height, int32(round), otherBid, otherPsid, nid, 0, int64(ts))
+		}
+		preIdx = append(preIdx, k)
+		pre = append(pre, vm)
+		o.Count("pb-pre-vote")
+	}
+	items := c05Split(t[5])
+	tss := make([]int64, len(items))
+	sigs := make([][]byte, len(items))
+	allValid := true
+	listSigners := map[int]int{}
+	for i, it := range items {
+		f := strings.Split(it, ":")
+		if len(f) != 2 || len(f[0]) < 2 {
+			return "bad-op"
+		}
+		k, e1 := strconv.Atoi(f[0][1:])
+		ts, e2 := strconv.Atoi(f[1])
+		if e1 != nil || e2 != nil || k < 0 || (f[0][0] != 'f' && k > 80) {
+			return "bad-op"
+		}
+		tss[i] = int64(ts)
+		switch f[0][0] {
+		case 'v':
+			sigs[i] = consensus.VerifVoteSignatureBytes(consensus.VerifSignedVote(c05Wallet(k), consensus.VoteTypePrecommit, height, int32(round), bid, psid, nid, 0, int64(ts)))
+			if k < n {
+				support[k] = true
+				listSigners[k]++
+			} else {
+				allValid = false
+			}
+		case 'w':
+			sigs[i] = consensus.VerifVoteSignatureBytes(consensus.VerifSignedVote(c05Wallet(k), consensus.VoteTypePrecommit, height, int32(round), otherBid, psid, nid, 0, int64(ts)))
+			allValid = false
+		case 'f':
+			sig := crypto.SHA3Sum256([]byte(fmt.Sprintf("verif-c05-forged-%d", k)))
+			sigs[i] = append(append(append([]byte{}, sig...), crypto.SHA3Sum256(sig)...), byte(k%2))
+			allValid = false
+		default:
+			return "bad-op"
+		}
+	}
+	repeated := false
+	for _, c := range listSigners {
+		if c > 1 {
+			repeated = true
+		}
+	}
+	if repeated {
+		o.Count("pb-repeated-signer")
+	}
+	cvl, err := consensus.VerifRawCommitVoteList(int32(round), consensus.VerifPSIDWithAppData(psid, nid, 0), tss, sigs)
+	if err != nil {
+		return "bad-op"
+	}
+	blockPSID := psid
+	if pseq == 0 { // the received block has a part set id nobody voted for
+		blockPSID = &consensus.PartSetID{Count: psid.Count, Hash: c05Hash("third-ps", r.seq%5)}
+	}
+	res, panicked := c05ProcessBlock(cvl.Bytes(), blk, prev, validators, blockPSID, preIdx, pre)
+	if panicked != nil {
+		o.Check(false, "c05-fastsync-panics", "processBlock path panics on %v: %v", items, panicked)
+		return "panic"
+	}
+	o.Count("pb-" + res)
+	if res == "accept" {
+		o.Check(allValid, "c05-fastsync-accepted-bad-signature", "fast-sync path accepted a list with a non-validator signature: %v", items)
+		o.Check(pseq == 1, "c05-fastsync-accepted-wrong-partset", "fast-sync path accepted a block whose part set id differs from the voted one")
+		o.Check(3*len(support) > 2*n, "c05-fastsync-accepted-without-quorum-of-distinct-signers",
+			"fast-sync path accepted with precommits of %d distinct validators of %d (pre %v, items %v)", len(support), n, t[4], items)
+	} else if len(pre) == 0 && allValid && pseq == 1 && 3*len(listSigners) > 2*n {
+		o.Check(false, "c05-fastsync-rejected-valid-certificate", "%s for %d distinct valid signers of %d: %v", res, len(listSigners), n, items)
+	}
+	if res == "reject-signer" || res == "reject-decode" {
+		// not distinguished by the model: the same validator list is used by toVoteList
+		return "reject-tovotelist"
+	}
+	return res
+}
+
 func c05Verify(cvl module.CommitVoteSet, blk module.BlockData, validators module.ValidatorList) (voted []bool, err error, panicked interface{}) {
 	defer func() {
 		if e := recover(); e != nil {
@@ -201,6 +465,9 @@ func (r *c05Runner) Step(t []string, o *Oracle) string {
 			return "1"
 		}
 		return "0"
+	}
+	if len(t) == 6 && t[0] == "pb" {
+		return r.stepPB(t, o)
 	}
 	if len(t) < 4 || t[0] != "vb" {
 		return "bad-op"
